@@ -38,6 +38,12 @@ RULE = ('programs of 2-3 threads x 1-3 operations over one registry (inc / gauge
         '(sys.settrace + f_trace_opcodes); in-memory back-end in process, file-backed back-end in a child interpreter; '
         'every run is (1) projected to Acq/Rel/Load/Store/table/Callout events and replayed in the extracted model along the '
         'same event order, (2) judged by the direct oracle, (3) compared with the model on final cells and tables; '
+        'the fixed list starts with programs of TWO and THREE threads that collect / scrape the SAME families (a labelled metric with 2-3 '
+        'children that exist before the threads start, a histogram, a summary: the optional `init` part of a case, run by the set-up code, '
+        'the model starts from that heap / child tables) while another thread updates; a third of the random programs have >= 2 collecting '
+        'threads and nearly half an `init` part; every collect / scrape result is kept as the ordered list of its samples and judged on its '
+        'own (each series once, value = the value this collect read, nothing read is missing, no counter lower than in a collect that had '
+        'returned before this one started) and the returned Metric objects are compared at the end of the run with a deep snapshot taken at return; '
         'non-trivial = at least one context switch happened inside an operation; distinct by (programs, schedule)')
 TRUSTED = ['the GIL makes one bytecode and one built-in dict operation atomic (pre-emption is explored between bytecodes only)',
            'threading.Lock is a mutex (replaced by the cooperative TracedLock of the harness during the check; the code uses Lock, not RLock)',
@@ -96,6 +102,7 @@ class Run:
         self.inop = [False] * nthreads
         self.building = [None] * nthreads   # [cid, kind, labelled] while the thread is inside a metric constructor
         self.early = []                   # (cid, metric object) captured on ENTRY of the constructor (half-built objects too)
+        self.curop = [None] * nthreads      # index of the operation the thread is executing
 
     def resolve(self):
         """Names the parent lock and the child table of the labelled metrics constructed by the thread programs, whenever
@@ -588,6 +595,53 @@ def constructs(case):
             for prog in case['threads'] for op in prog if op[0] in ('construct', 'construct_unreg')]
 
 
+def _series_key(name, labels):
+    return name + '|' + ','.join('%s=%s' % kv for kv in sorted(labels.items()))
+
+
+def _snapshot(fams):
+    """Deep copy of what a collect() returned: [[family name, type, [[sample name, labels, value], ...]], ...]."""
+    return [[fam.name, fam.type, [[smp.name, sorted(smp.labels.items()), smp.value] for smp in fam.samples]] for fam in fams]
+
+
+def _samples_of_snapshot(snap):
+    """The reported series of one collect IN ORDER, duplicates kept: [[series key, value], ...] (the value of a
+    _created series is a timestamp: reported as None)."""
+    return [[_series_key(name, dict(labels)), None if name.endswith('_created') else value]
+            for _fam, _typ, smps in snap for name, labels, value in smps]
+
+
+def _samples_of_text(text):
+    """The series lines of a text exposition IN ORDER, duplicates kept."""
+    import re
+    out = []
+    for line in text.decode('utf-8').split('\n'):
+        if not line or line.startswith('#'):
+            continue
+        m = re.match(r'^([A-Za-z_:][A-Za-z0-9_:]*)(?:\{(.*)\})? (\S+)(?: \S+)?$', line)
+        if m is None:
+            out.append(['?' + line, None])
+            continue
+        labels = dict(re.findall(r'([A-Za-z_][A-Za-z0-9_]*)="((?:[^"\\]|\\.)*)"', m.group(2) or ''))
+        try:
+            v = float(m.group(3))
+        except ValueError:
+            v = m.group(3)
+        out.append([_series_key(m.group(1), labels), None if m.group(1).endswith('_created') else v])
+    return out
+
+
+def _first_diff(a, b):
+    fa = dict((f[0], f[2]) for f in a)
+    fb = dict((f[0], f[2]) for f in b)
+    for name in fa:
+        if fa[name] != fb.get(name):
+            ka = [(_series_key(n, dict(l)), None if n.endswith('_created') else v) for n, l, v in fa[name]]
+            kb = [(_series_key(n, dict(l)), None if n.endswith('_created') else v) for n, l, v in (fb.get(name) or [])]
+            return 'family %s held %r when collect() returned and holds %r at the end of the run' % (name, ka, kb)
+    return 'the families differ: %r then %r' % (sorted(fa), sorted(fb))
+
+
 class Wrap:
     """A registered collector: logs the callout, then delegates."""
 
@@ -618,7 +672,12 @@ class World:
         self.mp = mp_dir is not None
         cls, self.store = make_value_class(mp_dir)
         self.created = []                 # value objects in creation order: (obj, metric_name, labels)
+        self.series_of = {}               # id(value object) -> 'sample name|label=value,...' (the series it backs)
+        self.handed = []                  # (tid, op index, the list collect() returned, deep snapshot taken at return)
         world = self
+
+        def note(obj, a):
+            world.series_of[id(obj)] = _series_key(a[2], dict(zip(a[3], a[4])))
 
         def factory(*a, **kw):
             run = RUN
@@ -640,6 +699,7 @@ class World:
                     run.names[id(lk)] = ('s', 100 + cell)
                 world.cells[cell] = obj
                 world.created.append(obj)
+                note(obj, a)
                 return obj
             if tid is not None:
                 labels = dict(zip(a[3], a[4]))
@@ -660,6 +720,7 @@ class World:
                     run.names[id(lk)] = ('c', slot[1], slot[2])
                 slot[2] += 1
             world.created.append(obj)
+            note(obj, a)
             return obj
         values.ValueClass = factory
         self.reg = registry.CollectorRegistry()
@@ -768,6 +829,10 @@ def do_op(world, run, tid, op, results):
         world.h.observe(op[1])
     elif k in ('labels', 'linc', 'labels2', 'linc2'):
         ch = (world.lc2 if k.endswith('2') else world.lc).labels(KEYS[op[1]])
+        if tid is None:                    # set-up code (the case's `init`): no events, named afterwards
+            if k in ('linc', 'linc2'):
+                ch.inc(op[2])
+            return
         run.constructing[tid] = None
         vid = run.names.get(id(ch.__dict__.get('_value')))
         idx = vid[1] if vid else -1
@@ -800,16 +865,19 @@ def do_op(world, run, tid, op, results):
     elif k == 'scrape':
         from prometheus_client.exposition import generate_latest
         text = generate_latest(world.reg)
-        results.append(['scrape', len(text)])
+        results.append(['scrape', len(text), _samples_of_text(text), run.curop[tid]])
     elif k == 'collect':
         out = {}
-        for fam in world.reg.collect():
+        fams = list(world.reg.collect())
+        snap = _snapshot(fams)             # what this collect handed out, at the moment it returned
+        world.handed.append((tid, run.curop[tid], fams, snap))
+        for fam in fams:
             out['#' + fam.name] = 1
             for smp in fam.samples:
                 if smp.name.endswith('_created'):
                     continue
                 out[smp.name + '|' + ','.join('%s=%s' % kv for kv in sorted(smp.labels.items()))] = smp.value
-        results.append(['collect', out])
+        results.append(['collect', out, _samples_of_snapshot(snap), run.curop[tid]])
     else:
         raise AssertionError('unknown op %r' % (op,))
 
@@ -833,6 +901,45 @@ def run_schedule(case):
                 os.environ['PROMETHEUS_MULTIPROC_DIR'] = old_env
 
 
+INIT_OPS = ('inc', 'ginc', 'gset', 'obs_s', 'obs_h', 'linc', 'linc2')
+
+
+def run_init(world, run, init):
+    """The state BEFORE the threads start: the case's `init` operations (updates of the static metrics, labelled children
+    created and incremented) are run sequentially by the set-up code (no events); the children that exist are named in
+    table order.  Returns what the model needs: the non-zero cells, the child tables and the next child id."""
+    for op in init:
+        if op[0] not in INIT_OPS:
+            raise AssertionError('init op %r' % (op,))
+        do_op(world, run, None, op, [])
+    names = run.names
+    tabs = {}
+    for metric, tb in ((world.lc, LC_TBL), (world.lc2, LC2_TBL)):
+        ents = []
+        for key, child in dict.items(metric.__dict__['_metrics']):
+            v = child.__dict__['_value']
+            idx = run.nchildren
+            run.nchildren += 1
+            run.keep.append(v)
+            names[id(v)] = ('c', idx, 0)
+            lk = v.__dict__.get('_lock')
+            if isinstance(lk, TracedLock):
+                names[id(lk)] = ('c', idx, 0)
+            ents.append([KEYS.index(key[0]), idx])
+        tabs[str(tb)] = ents
+    heap = []
+    for num, v in world.cells.items():
+        z = _num(v.__dict__['_value'])
+        if z != 0:
+            heap.append([['s', num], z])
+    for key, nm in list(names.items()):
+        if isinstance(nm, tuple) and nm[0] == 'c':
+            for o in run.keep:
+                if id(o) == key and '_value' in getattr(o, '__dict__', {}):
+                    heap.append([list(nm), _num(o.__dict__['_value'])])
+    return dict(heap=heap, tabs=tabs, n0=run.nchildren)
+
+
 def _run_schedule(case, mp_dir):
     global RUN
     import random
@@ -847,6 +954,7 @@ def _run_schedule(case, mp_dir):
     run.constructing = [None] * n
     run.nchildren = 0
     world.name_all(run)
+    init_state = run_init(world, run, case.get('init') or [])
     results = [[] for _ in range(n)]
     excs = [None] * n
     libdirs = (LIBDIR, os.path.dirname(patch()['values'].__file__) + os.sep)
@@ -873,10 +981,13 @@ def _run_schedule(case, mp_dir):
                 return
             if run.mode == 'fine':
                 sys.settrace(glob)
-            for op in progs[tid]:
+            for opi, op in enumerate(progs[tid]):
                 run.inop[tid] = True
+                run.curop[tid] = opi
                 try:
+                    run.log(tid, 'op', None, opi)
                     do_op(world, run, tid, op, results[tid])
+                    run.log(tid, 'opend', None, opi)
                 except SchedAbort:
                     raise
                 except BaseException as e:       # an operation raised: recorded, the thread stops (as in the model)
@@ -945,6 +1056,8 @@ def _run_schedule(case, mp_dir):
             ev.append(['exc', tid, extra, locks])
         elif kind == 'file':
             ev.append(['file', tid, locks])
+        elif kind in ('op', 'opend'):
+            ev.append([kind, tid, extra])
     # ---- final state, read without events ----
     final = {}
     for num, v in world.cells.items():
@@ -973,11 +1086,23 @@ def _run_schedule(case, mp_dir):
         if mp_dir is not None:
             files = read_mp_files(mp_dir)
     still_held = [str(names.get(id(l), '?')) for t in range(n) for l in run.held[t]]
+    # what a finished collect() handed out is the caller's: compared, at the very end (after every other collect, the
+    # sequential final one included), with the deep snapshot taken when it returned
+    mutated = []
+    for tid, opi, fams, snap in world.handed:
+        now = _snapshot(fams)
+        if now != snap:
+            mutated.append([tid, opi, _first_diff(snap, now)])
+    series = {}
+    for o in world.created:
+        nm = names.get(id(o))
+        if nm is not None and id(o) in world.series_of:
+            series.setdefault(world.series_of[id(o)], []).append(list(nm))
     return dict(events=ev, results=results, excs=excs, aborted=run.aborted, deadlock=run.deadlock_info,
                 final=final, tables=tables, final_collect=final_collect, final_exc=final_exc, files=files,
                 points=run.points, decisions=[list(d) for d in run.decisions], alts=run.alts,
                 switches_inside=run.switches_inside, unknown_locks=unknown, still_held=still_held,
-                nchildren=run.nchildren)
+                nchildren=run.nchildren, mutated=mutated, series=series, init=init_state)
 
 
 def _cid_of(obj):
@@ -1257,9 +1382,14 @@ def model_replay(m, case, obs):
     locs = [_x(i) for i in range(1, 9)] + [(Sym('c'), c, 0) for c in range(nch)]
     pre = case.get('pre_reg', [1, 2, 3, 4, 5])
     itabs = [(0, [(c, c) for c in pre]), (1, [(c, c) for c in pre])]
+    ini = obs.get('init') or dict(heap=[], tabs={}, n0=0)
+    for tb, ents in sorted(ini['tabs'].items()):
+        if ents:
+            itabs.append((int(tb), [(int(k), int(v)) for k, v in ents]))
+    init = (int(ini['n0']), [((Sym(x[0]),) + tuple(int(i) for i in x[1:]), int(z)) for x, z in ini['heap']])
     made_cells = [c_cell(cid, r) for cid, kind, lab, _ in constructs(case) if not lab for r in range(len(KINDS[kind]['roles']))]
     locs += [_x(n) for n in made_cells]
-    r = m.call('c02_replay', be == 'mp', threads, model_bodies(flags, case), tids, locs, [0, 1, 2, 3], itabs)
+    r = m.call('c02_replay', be == 'mp', threads, model_bodies(flags, case), tids, locs, [0, 1, 2, 3], itabs, init)
     mevs = norm_model_events(r[0])
     final = {}
     for i in range(1, 9):
@@ -1356,7 +1486,7 @@ def direct(case, obs):
     for k, v in obs['final'].items():
         if not isinstance(v, int):
             return 'cell %s ends with %s, which no sequence of the (integer) updates issued can produce' % (k, v)
-    ops = [op for prog in case['threads'] for op in prog]
+    ops = [op for op in (case.get('init') or [])] + [op for prog in case['threads'] for op in prog]
     fin = obs['final']
     want = {1: sum(o[1] for o in ops if o[0] == 'inc'),
             3: sum(1 for o in ops if o[0] == 'obs_s'), 4: sum(o[1] for o in ops if o[0] == 'obs_s'),
@@ -1424,6 +1554,9 @@ def direct(case, obs):
                 return 'file-backed store: file has %s = %r, the process holds / the increments sum to %r' % (nm, files[nm], w)
     # every value a load reports was held; counters never decrease in the order the loads happened
     held = {}
+    for x, z in (obs.get('init') or {}).get('heap', []):
+        held[tuple(x)] = {z}
+    init_of = dict((c, min(vs)) for c, vs in held.items())
     last = {}
     for e in norm_impl_events(obs['events']):
         if e[0] == 'st':
@@ -1432,9 +1565,9 @@ def direct(case, obs):
             if e[3] not in held.setdefault(e[2], {0}):
                 return 'a read of cell %r returned %r, which the cell never held' % (e[2], e[3])
             if COUNTER_CELLS(e[2]):
-                if e[3] < last.get(e[2], 0):
+                if e[3] < last.get(e[2], init_of.get(e[2], 0)):
                     return 'counter cell %r was seen to decrease: %r after %r' % (e[2], e[3], last[e[2]])
-                last[e[2]] = max(last.get(e[2], 0), e[3])
+                last[e[2]] = max(last.get(e[2], init_of.get(e[2], 0)), e[3])
     # what the concurrent collects reported: a held value; per thread never decreasing
     for res in obs['results']:
         prev = {}
@@ -1448,6 +1581,89 @@ def direct(case, obs):
                     if r[1][nm] < prev.get(nm, 0):
                         return 'successive collects saw %s decrease: %r after %r' % (nm, r[1][nm], prev[nm])
                     prev[nm] = r[1][nm]
+    return check_collects(case, obs, held, removal)
+
+
+def check_collects(case, obs, held, removal):
+    """Every concurrent collect / scrape judged ON ITS OWN: each series at most once; every reported value is one this
+    collect read from the series' cell (and every read returned a held value, checked above), a series it read is
+    reported; a collect that started after another one returned never sees a counter lower; and the object a collect
+    returned is not changed afterwards (by another thread's collect of the same metric)."""
+    cell_series = {}
+    for key, cells in (obs.get('series') or {}).items():
+        for c in cells:
+            cell_series[tuple(c)] = key
+    # the interval of every operation in the global event order, and the loads it made
+    begin, end, loads = {}, {}, {}
+    cur = {}
+    for i, e in enumerate(obs['events']):
+        if e[0] == 'op':
+            begin[(e[1], e[2])] = i
+            cur[e[1]] = (e[1], e[2])
+        elif e[0] == 'opend':
+            end[(e[1], e[2])] = i
+            cur.pop(e[1], None)
+        elif e[0] == 'ld' and e[1] in cur and tuple(e[2]) in cell_series:
+            loads.setdefault(cur[e[1]], []).append((cell_series[tuple(e[2])], e[3]))
+    reports = []
+    for t, res in enumerate(obs['results']):
+        for r in res:
+            if r[0] not in ('collect', 'scrape') or len(r) < 4:
+                continue
+            what = '%s of thread %d (operation %d)' % ('collect' if r[0] == 'collect' else 'scrape', t, r[3])
+            got = {}
+            for key, v in r[2]:
+                if key in got:
+                    return 'one %s reports the series %s twice: %r and %r' % (what, key, got[key], v)
+                got[key] = v
+            mine = {}
+            for key, v in loads.get((t, r[3]), []):
+                mine.setdefault(key, []).append(v)
+            for key, v in r[2]:
+                if key not in (obs.get('series') or {}) or '_bucket|' in key:
+                    continue
+                if key in mine:
+                    if v not in mine[key]:
+                        return ('%s reports %s = %r, but the value it read from that series during this collect was %r'
+                                % (what, key, v, mine[key]))
+                else:
+                    allowed = set()
+                    for c in obs['series'][key]:
+                        allowed |= held.get(tuple(c), {0})
+                    if v not in allowed:
+                        return '%s reports %s = %r, a value the series never held (%r)' % (what, key, v, sorted(allowed))
+            # histogram buckets are reported cumulatively: the running sums of the bucket cells this collect read
+            for fam in sorted(set(k.split('_bucket|')[0] for k in mine if '_bucket|' in k)):
+                acc = 0
+                for le in ('1.0', '2.0', '+Inf'):
+                    key = '%s_bucket|le=%s' % (fam, le)
+                    if len(mine.get(key, [])) != 1:
+                        break
+                    acc += mine[key][0]
+                    if key in got and got[key] != acc:
+                        return ('%s reports %s = %r, but the bucket cells it read during this collect sum to %r'
+                                % (what, key, got[key], acc))
+            for key in mine:
+                if key not in got:
+                    return '%s read the series %s (value %r) but its result does not report it' % (what, key, mine[key])
+            if (t, r[3]) in begin and (t, r[3]) in end:
+                reports.append((begin[(t, r[3])], end[(t, r[3])], what, got))
+    for tid, opi, what in obs.get('mutated') or []:
+        return ('the result of a finished collect (thread %d, operation %d) changed after it was returned: %s'
+                % (tid, opi, what))
+    # a collect that STARTED after another one RETURNED never sees a counter lower (any two threads)
+    def counter_like(key):
+        nm = key.split('|')[0]
+        if removal and nm == 'lc_total':
+            return False
+        return nm.endswith('_total') or nm.endswith('_bucket') or nm.endswith('_count')
+    for b1, e1, w1, g1 in reports:
+        for b2, e2, w2, g2 in reports:
+            if e1 < b2:
+                for key, v in g1.items():
+                    if counter_like(key) and key in g2 and v is not None and g2[key] is not None and g2[key] < v:
+                        return ('a counter went down between two collects: %s reported %s = %r, the later %s reports %r'
+                                % (w1, key, v, w2, g2[key]))
     return None
 
 
@@ -1535,6 +1751,9 @@ def classify(case, obs):
     for prog in case['threads']:
         for op in prog:
             ks.append('op=' + op[0])
+    if case.get('init'):
+        ks.append('init')
+    ks.append('collecting_threads=%d' % sum(1 for prog in case['threads'] if any(op[0] in ('collect', 'scrape') for op in prog)))
     if obs.get('aborted'):
         ks.append('aborted=' + obs['aborted'])
     if any(obs.get('excs') or []):
@@ -1579,7 +1798,18 @@ SYSTEMATIC_CONSTRUCT = [
     ([], [[['construct', 'summary', False, 20]], [['register', 6], ['collect']]]),
     ([7], [[['construct', 'counter', False, 20]], [['collect']]]),
 ]
-SYSTEMATIC = SYSTEMATIC_CONSTRUCT + SYSTEMATIC
+# TWO or THREE threads collect / scrape the SAME metric families at once (several samples per family: labelled children
+# that exist before the threads start, a histogram, a summary) while another thread updates; every collect is pre-emptible
+# between the samples of one family (the child's value lock / cell read are visible events).  (pre_reg, threads, init)
+SYSTEMATIC_COLLECT = [
+    ([5], [[['collect']], [['collect']]], [['linc', 0, 1], ['linc', 1, 2]]),
+    ([5], [[['collect']], [['collect']], [['linc', 1, 10]]], [['linc', 0, 1], ['linc', 1, 1]]),
+    ([5], [[['scrape']], [['scrape']], [['linc', 0, 3]]], [['linc', 0, 1], ['linc', 1, 2], ['linc', 2, 4]]),
+    ([4], [[['collect']], [['scrape']], [['obs_h', 1]]], [['obs_h', 2], ['obs_h', 3]]),
+    ([1, 3], [[['collect'], ['collect']], [['collect']], [['inc', 2], ['obs_s', 3]]], [['inc', 1], ['obs_s', 1]]),
+    ([5, 9], [[['collect']], [['collect']], [['collect']]], [['linc', 0, 1], ['linc2', 0, 2], ['linc2', 1, 3]]),
+]
+SYSTEMATIC = SYSTEMATIC_COLLECT + SYSTEMATIC_CONSTRUCT + SYSTEMATIC
 
 
 def random_program(rng):
@@ -1635,24 +1865,55 @@ def random_program(rng):
             else:
                 prog.append(['inc', a])
         threads.append(prog)
+    # several scrapers: two (or all) threads collect / scrape the registry, somewhere in their program
+    if rng.random() < 0.35:
+        for t in rng.sample(range(n), rng.choice((2, 2, n))):
+            if len(threads[t]) >= 3:
+                # make room, but keep the register / unregister alternation of u0 and the constructions intact
+                drop = [i for i, o in enumerate(threads[t]) if o[0] not in ('register', 'unregister', 'construct', 'construct_unreg')]
+                if drop:
+                    threads[t].pop(rng.choice(drop))
+            threads[t].insert(rng.randrange(len(threads[t]) + 1), ['collect'] if rng.random() < 0.7 else ['scrape'])
+        for c in rng.sample((1, 3, 4, 5, 9), 2):
+            if c not in pre:
+                pre.append(c)
+    # the state before the threads start: labelled children that exist (with values), static metrics already updated
+    init = []
+    if rng.random() < 0.45:
+        for _ in range(rng.randrange(1, 5)):
+            r = rng.random()
+            a = rng.randrange(1, 6)
+            if r < 0.45:
+                init.append(['linc', rng.randrange(3), a])
+            elif r < 0.65:
+                init.append(['linc2', rng.randrange(3), a])
+            elif r < 0.8:
+                init.append(['inc', a])
+            elif r < 0.9:
+                init.append(['obs_h', rng.randrange(1, 4)])
+            else:
+                init.append(['obs_s', a])
     # the lazily registering / self-unregistering collectors act once: at most one collect in the program
     if lazy is not None and sum(1 for p in threads for o in p if o[0] in ('collect', 'scrape')) == 1:
         pre.insert(rng.randrange(len(pre) + 1), lazy)
-        return pre, threads, mem_only
-    return sorted(set(pre)), threads, mem_only
+        return pre, threads, mem_only, init
+    return sorted(set(pre)), threads, mem_only, init
 
 
 def cases(ctx):
     """Seeded random programs x seeded random schedules (used by the engine's search as well)."""
     rng = ctx.rng
     for i in range(ctx.n(6000, 60000)):
-        pre, threads, mem_only = random_program(rng)
+        pre, threads, mem_only, init = random_program(rng)
         be = 'mp' if (i % 3 == 2 and not mem_only) else 'mem'
         if rng.random() < 0.5:
             sched = dict(mode='fine', seed=rng.randrange(1 << 30), p=rng.choice((0.01, 0.03, 0.1)))
         else:
             sched = dict(mode='coarse', seed=rng.randrange(1 << 30), p=rng.choice((0.1, 0.3, 0.5)))
-        yield dict(be=be, pre_reg=pre, threads=threads, sched=sched)
+        case = dict(be=be, pre_reg=pre, threads=threads, sched=sched)
+        if init:
+            case['init'] = init
+        yield case
 
 
 def shrinks(case):
@@ -1662,6 +1923,10 @@ def shrinks(case):
             del c['threads'][t][i]
             if any(c['threads']):
                 yield c
+    for i in range(len(case.get('init') or [])):
+        c = json.loads(json.dumps(case))
+        del c['init'][i]
+        yield c
     pre = case['sched'].get('pre')
     if pre:
         for i in range(len(pre)):
@@ -1730,7 +1995,7 @@ def replay(ctx, rep, case):
         close_child()
 
 
-def explore(ctx, rep, be, pre_reg, threads, bound, deadline):
+def explore(ctx, rep, be, pre_reg, threads, bound, deadline, init=None):
     """Every schedule with at most `bound` pre-emptions at visible events, breadth first in the number of pre-emptions."""
     n = len(threads)
     level = [[[-1, t]] if t else [] for t in range(n)]
@@ -1742,6 +2007,8 @@ def explore(ctx, rep, be, pre_reg, threads, bound, deadline):
             if time.time() > deadline:
                 return runs, False
             case = dict(be=be, pre_reg=pre_reg, threads=threads, sched=dict(mode='coarse', pre=pre))
+            if init:
+                case['init'] = init
             obs = check_one(ctx, rep, case)
             runs += 1
             if depth < bound:
@@ -1767,13 +2034,13 @@ def run(ctx, rep, corpus):
         sys_deadline = t0 + budget * 0.6
         # remove()/clear() are documented as not implemented in multiprocess mode (a re-created child resumes from the
         # file): programs containing them are explored in the in-memory back-end only
-        todo = [(be, pre, th) for pre, th in SYSTEMATIC for be in ('mem', 'mp')
-                if not (be == 'mp' and any(op[0] in ('remove', 'clear') for prog in th for op in prog))]
+        todo = [(be, ent[0], ent[1], ent[2] if len(ent) > 2 else None) for ent in SYSTEMATIC for be in ('mem', 'mp')
+                if not (be == 'mp' and any(op[0] in ('remove', 'clear') for prog in ent[1] for op in prog))]
         exhaustive = []
-        for i, (be, pre, th) in enumerate(todo):
+        for i, (be, pre, th, init) in enumerate(todo):
             share = t0 + budget * 0.6 * (i + 1) / len(todo)
-            runs, complete = explore(ctx, rep, be, pre, th, bound, min(sys_deadline, share))
-            exhaustive.append(dict(be=be, threads=th, runs=runs, complete=complete))
+            runs, complete = explore(ctx, rep, be, pre, th, bound, min(sys_deadline, share), init)
+            exhaustive.append(dict(be=be, threads=th, init=init, runs=runs, complete=complete))
         rep.extra['systematic'] = exhaustive
         rep.exhaustive = all(e['complete'] for e in exhaustive)
         for case in cases(ctx):
